@@ -36,6 +36,11 @@ for sid in ids:
         sh("git checkout -- . && git clean -fdq -- . ':!*zz_contracts_verif.go'")
     print(sid, "DETECTED" if rows[-1].get("detected") else "MISSED", flush=True)
 assert sh("git status --porcelain")[1].strip() == "", "/repo not clean after run"
+if sys.argv[1:] and os.path.exists("/verif/seeded/SUMMARY.json"):
+    prev = json.load(open("/verif/seeded/SUMMARY.json"))
+    new = {r["seed"]: r for r in rows}
+    rows = [new.pop(r["seed"], r) for r in prev] + list(new.values())
+    rows.sort(key=lambda r: r["seed"])
 json.dump(rows, open("/verif/seeded/SUMMARY.json", "w"), indent=1)
 with open("/verif/seeded/SUMMARY.md", "w") as f:
     f.write("# Seeded changes against the current checks (written by tools/run_seeds.py)\n\n| seed | detected | first reporting obligation |\n|---|---|---|\n")
